@@ -128,6 +128,18 @@ add(
     "3/C11",
 )
 
+add(
+    "C15",
+    "The real Optimizer.optimize/create_result with the adversarial least_squares stub and a model fault whose position k "
+    "(1..K+1) is a solver variable: for every k, raise_exception and verbose setting the outcome is proved to be the "
+    "documented one (InitialParameterError for k=1; success False with the error text and parameters equal, as terms for "
+    "all iterates, to a successfully evaluated point and datasets from that same evaluation; original exception object "
+    "propagating with raise_exception=True), sys.stdout restored (identity), scheme snapshot unchanged; five kinds of "
+    "invalid scheme are rejected with the documented exception with zero model evaluations and zero linear solves.",
+    COMMON_NOTE + "Faults are exceptions raised by the model; non-finite matrices and scipy's own reactions are not modelled.",
+    "3/C15",
+)
+
 ALL = [f"C{i:02d}" for i in range(1, 21)]
 
 
